@@ -991,8 +991,9 @@ func genG1(seed uint64, prop string) *Scenario {
 			sc.Steps = append(sc.Steps, Step{T: "flush", Flush: fs})
 		case x < pFlush+pHandover:
 			sess++
-			sc.Steps = append(sc.Steps, Step{T: "handover", Sess: sess, A: g.pick(2)})
-			if g.chance(1, 3) {
+			hmode := g.pick(3) // 0: the old session stays connected, 1: it half-closes, 2: no hand-over - the primary raises its own id
+			sc.Steps = append(sc.Steps, Step{T: "handover", Sess: sess, A: hmode})
+			if hmode != 2 && g.chance(1, 3) {
 				// a new client numbers its operations from 1 again (as every fluent client does): ids of the previous
 				// session's operations - possibly still held - come round again
 				g.nextID = 1
